@@ -68,6 +68,13 @@ class FakeS3(object):
         return self.buckets.setdefault(bucket, {})
 
     def _mutate(self, owner, op, bucket, key, apply):
+        rp = getattr(self, 'reject_puts', None)
+        if rp and op == 'put' and self.mutations == rp['at'] and rp['times'] > 0:
+            # the service refuses the request (throttling, 5xx) this many consecutive times; nothing is stored
+            rp['times'] -= 1
+            rp['rejected'] = rp.get('rejected', 0) + 1
+            raise ClientError({'Error': {'Code': rp.get('code', 'SlowDown'), 'Message': 'Please reduce your request rate.'},
+                               'ResponseMetadata': {'HTTPStatusCode': 503}}, 'PutObject')
         if self.crash_at is not None and self.mutations == self.crash_at:
             self.crash_at = None
             raise InjectedCrash('crash before mutation %d (%s %s)' % (self.mutations, op, key))
@@ -177,6 +184,16 @@ class _Summary(object):
 
     def get(self):
         return {'Body': io.BytesIO(self._fake.get(self._owner, self._bucket, self.key))}
+
+
+class ClientError(Exception):
+    """Shaped like botocore.exceptions.ClientError (which is what a real client raises for an error response)."""
+
+    def __init__(self, error_response, operation_name):
+        super(ClientError, self).__init__('An error occurred (%s) when calling the %s operation: %s' % (
+            error_response['Error']['Code'], operation_name, error_response['Error']['Message']))
+        self.response = error_response
+        self.operation_name = operation_name
 
 
 class TransientS3Error(Exception):
